@@ -148,8 +148,10 @@ func runAll(files []string, timeoutS, par int, all bool) []SolveResult {
 			defer wg.Done()
 			defer func() { <-sem }()
 			t := timeoutS
-			if strings.Contains(filepath.Base(f), "_cover.") && t > 3 {
+			if b := filepath.Base(f); (strings.Contains(b, "_cover.") || strings.Contains(b, "_smoke.ctx")) && t > 3 {
 				t = 3 // vacuity checks only need to notice a quick "unsat"
+			} else if strings.Contains(b, "_smoke.path") && t > 1 {
+				t = 1
 			}
 			res[i] = solve(f, t, all)
 		}(i, f)
